@@ -4,6 +4,7 @@ package main
 
 import (
 	"fmt"
+	"sort"
 	"go/constant"
 	"go/types"
 	"strings"
@@ -211,9 +212,9 @@ func (env *SpecEnv) eval(e Expr) *Val {
 			if saved == nil {
 				fb, fpat := normaliseForall(tAnd(facts...), qnames)
 				if fpat != "" {
-					fx.sol.Assert("(forall (" + strings.Join(decls, " ") + ") (! " + fb + " :pattern (" + fpat + ")))")
+					fx.sol.AssertOnce("(forall (" + strings.Join(decls, " ") + ") (! " + fb + " :pattern (" + fpat + ")))")
 				} else {
-					fx.sol.Assert("(forall (" + strings.Join(decls, " ") + ") " + tAnd(facts...) + ")")
+					fx.sol.AssertOnce("(forall (" + strings.Join(decls, " ") + ") " + tAnd(facts...) + ")")
 				}
 			}
 			body = tImp(tAnd(facts...), body)
@@ -878,7 +879,52 @@ func (env *SpecEnv) call(x *ECall) *Val {
 		for i, p := range sf.Params {
 			c.vars[p] = arg(i)
 		}
-		return c.eval(sf.Body)
+		if fx.con != nil && fx.con.Opaque[sf.Name] && fx.readLog == nil && env.st.wfSink == nil {
+			// opaque: an uninterpreted predicate of the arguments and of the heap arrays the body reads
+			var log []string
+			fx.readLog = &log
+			fx.readSeen = map[string]string{}
+			fx.sol.muted++
+			nun := len(fx.unsup)
+			dry := c.eval(sf.Body)
+			fx.sol.muted--
+			fx.readLog = nil
+			seen := fx.readSeen
+			fx.readSeen = nil
+			if len(fx.unsup) == nun && dry.K == KBool {
+				var terms, sorts []string
+				for i := range sf.Params {
+					ft, fs, _ := c.flatArgs([]*Val{c.vars[sf.Params[i]]})
+					terms = append(terms, ft...)
+					sorts = append(sorts, fs...)
+				}
+				sort.Strings(log)
+				sig := ""
+				for _, k := range log {
+					terms = append(terms, env.st.heapGet(k, seen[k]))
+					sorts = append(sorts, seen[k])
+					sig += k + ";"
+				}
+				name := fmt.Sprintf("op_%s_%d", sf.Name, strID("opaque:"+sf.Name+":"+sig))
+				fx.sol.Declare(name, "(declare-fun "+name+" ("+strings.Join(sorts, " ")+") Bool)")
+				fx.note("spec function " + sf.Name + " kept opaque in this function")
+				return mkBool("(" + name + " " + strings.Join(terms, " ") + ")")
+			}
+		}
+		r := c.eval(sf.Body)
+		if r.K == KBool && env.st.wfSink == nil && strings.Contains(r.S, "(forall ") && !strings.Contains(r.S, "q_") == false {
+			// share identical quantified predicates (same spec function, same arguments, same heap terms)
+			hasOuter := false
+			for _, v := range env.vars {
+				if v != nil && v.K == KInt && strings.HasPrefix(v.S, "q_") {
+					hasOuter = true
+				}
+			}
+			if !hasOuter {
+				return mkBool(fx.sol.Define("sp_"+sf.Name, r.S, "Bool", fx.fresh))
+			}
+		}
+		return r
 	}
 	if gf, ok := fx.eng.CS.GFuncs[x.Fun]; ok {
 		var args []*Val
